@@ -310,3 +310,8 @@ ENGINES["corrupt"] = "E4: byte-damage enumerator over generated databases (C11 o
 # C13 and C17: crash stages in addition to the history / codec stages
 PROPS["C13"]["stages"].append(e3_stage("C13", 2, 3, "B1", "B1;B1,reuse=1", nested_q=0, nested_t=1, classes=0x07))
 PROPS["C13"]["rule"] += "; crash stage: every journal index x {min, max, dir-ahead} images of short histories: after recovery completes the directory holds exactly the live files (no orphan table, stale MANIFEST or temp file)"
+
+PROPS["C20"]["stages"].append(dict(name="mc-backup", driver="mc", flavour="asan", args=["--prop", "C20"],
+                                   quick=["--scenarios", "D12,D13", "--bound", "2"], thorough=["--scenarios", "D12,D13", "--bound", "3"]))
+PROPS["C20"]["rule"] += "; concurrent stage: ldb_backup racing a batch writer, a flush and a memtable switch (scenarios D12, D13), every schedule within the deviation bound: the backup opens through an independent handle and equals the database at ONE point inside the backup call (linearizability oracle, every batch wholly in or out)"
+PROPS["C20"]["assumptions"] = PROPS["C20"]["assumptions"] + E1_ASSUME[:3]
